@@ -245,7 +245,8 @@ class NumpyInterpreter:
                     self.context[stmt.assignee] = self.eval_mapper(stmt.expression)
 
             for ident, _, _ in stmt.loops:
-                del self.context[ident]
+                # (not set if the loop ran zero times)
+                self.context.pop(ident, None)
 
     def exec_AssignFunctionCall(self, stmt):
         parameters = [
